@@ -25,3 +25,7 @@ type VerifInternals struct {
 func (db *Olric) VerifInternals() VerifInternals {
 	return VerifInternals{DMap: db.dmap, PubSub: db.pubsub, RT: db.rt, Balancer: db.balancer, Primary: db.primary, Backup: db.backup, Server: db.server}
 }
+
+// VerifSetMemberCountQuorum changes MemberCountQuorum of a running member (a cluster whose members
+// are started one after the other cannot boot with a quorum above one).
+func (db *Olric) VerifSetMemberCountQuorum(n int32) { db.config.MemberCountQuorum = n }
